@@ -157,11 +157,48 @@ def parse_ord(tok, ord_consts):
 
 def _py_expr(e):
     e = e.replace("u32::MAX", str(2**32 - 1)).replace("i32::MAX", str(2**31 - 1))
-    e = re.sub(r"(\d)_(?=\d)", r"\1", e)
+    e = re.sub(r"\b\d[0-9a-fA-Fx_]*", lambda m: m.group(0).replace("_", ""), e)
     e = re.sub(r"\b(\d+|0x[0-9a-fA-F]+)(?:u8|u16|u32|u64|usize|i8|i16|i32|i64|isize)\b", r"\1", e)
     e = re.sub(r"\bas(?:u32|usize|u64|i32)\b", "", e)
     e = re.sub(r"!(?!=)", "~", e)
     return e
+
+
+class U32:
+    """u32 with Rust's wrapping-free arithmetic reproduced modulo 2^32 (operator precedences of the operators used
+    here are the same in Rust and Python; `!` is spelt `~`)"""
+    __slots__ = ("v",)
+
+    def __init__(self, v):
+        self.v = int(v) & 0xFFFFFFFF
+
+    def _b(f):
+        return lambda a, b: U32(f(a.v, b.v if isinstance(b, U32) else int(b)))
+    __add__ = _b(lambda a, b: a + b)
+    __sub__ = _b(lambda a, b: a - b)
+    __mul__ = _b(lambda a, b: a * b)
+    __and__ = _b(lambda a, b: a & b)
+    __or__ = _b(lambda a, b: a | b)
+    __xor__ = _b(lambda a, b: a ^ b)
+    __lshift__ = _b(lambda a, b: a << (b & 31))
+    __rshift__ = _b(lambda a, b: a >> (b & 31))
+
+    def __invert__(self):
+        return U32(0xFFFFFFFF ^ self.v)
+
+    def __neg__(self):
+        return U32(-self.v)
+
+
+def _eval_u32(t):
+    if not re.fullmatch(r"[0-9a-fA-Fx()<>|&^+\-*~]+", t):
+        return None
+    t = re.sub(r"\b(0x[0-9a-fA-F]+|\d+)\b", r"U32(\1)", t)
+    try:
+        r = eval(t, {"__builtins__": {}, "U32": U32})
+        return r.v if isinstance(r, U32) else None
+    except Exception:
+        return None
 
 
 def eval_const(expr, env):
@@ -169,13 +206,7 @@ def eval_const(expr, env):
     e = norm(expr)
     for k in sorted(env, key=len, reverse=True):
         e = re.sub(r"\b%s\b" % re.escape(k), "(%d)" % env[k], e)
-    e = _py_expr(e)
-    if not re.fullmatch(r"[0-9a-fA-Fx()<>|&^+\-*~]+", e):
-        return None
-    try:
-        return eval(e, {"__builtins__": {}}) & 0xFFFFFFFF
-    except Exception:
-        return None
+    return _eval_u32(_py_expr(e))
 
 
 def resolve_consts(raw):
@@ -253,13 +284,7 @@ def eval_with(e, assign):
     t = e
     for k in sorted(assign, key=len, reverse=True):
         t = re.sub(r"(?<![\w.:])%s\b" % re.escape(k), "(%d)" % assign[k], t)
-    t = _py_expr(t)
-    if not re.fullmatch(r"[0-9a-fA-Fx()<>|&^+\-*~]+", t):
-        return None
-    try:
-        return eval(t, {"__builtins__": {}}) & 0xFFFFFFFF
-    except Exception:
-        return None
+    return _eval_u32(_py_expr(t))
 
 
 RW_SAMPLES = [0, 1, 2, 7, MASK30 - 1, MASK30, 1 << 30, 1 << 31, 3 << 30, 1 | (1 << 30), 5 | (1 << 31),
